@@ -137,8 +137,8 @@ class Fn(object):
         return False
 
     # -- values -----------------------------------------------------------------
-    def resolver(self, at_astnode, stop=()):
-        return sym.make_resolver(self.cfg, self.rd, self.node(at_astnode), stop)
+    def resolver(self, at_astnode, stop=(), only_lambdas=False):
+        return sym.make_resolver(self.cfg, self.rd, self.node(at_astnode), stop, only_lambdas)
 
     def nf(self, expr, at=None, stop=(), env=None):
         """Normal form of `expr` with locals inlined through unique reaching definitions at `at`."""
@@ -527,22 +527,29 @@ def inventory(fn, rule, items, metas, root=None, fixed=None, required=True, orde
     alt = {}
     for s_, nf_ in nfs:
         if isinstance(s_, (ast.Assign, ast.Return, ast.Expr)) and not any(isinstance(a, (ast.FunctionDef, ast.Lambda)) and a is not fn.ast for a in fn.ancestors(s_)):
-            try:
-                N_ = sym.Normalizer(resolver=fn.resolver(s_), ordered_add=ordered_add)
-                if isinstance(s_, ast.Assign):
-                    a_nf = ('assign', nf_[1], N_.n(s_.value))
-                elif isinstance(s_, ast.Return):
-                    a_nf = ('return', N_.n(s_.value) if s_.value is not None else None)
-                else:
-                    a_nf = ('expr', N_.n(s_.value))
-                if a_nf != nf_ and '#phi' not in repr(a_nf):
-                    alt[id(s_)] = a_nf
-            except AnalysisError:
-                pass
+            # other readings of the statement: local helper lambdas applied (beta-reduced) only; all locals
+            # replaced by their unique reaching definition
+            for only_l in (True, False):
+                try:
+                    N_ = sym.Normalizer(resolver=fn.resolver(s_, only_lambdas=only_l), ordered_add=ordered_add)
+                    if isinstance(s_, ast.Assign):
+                        if only_l and isinstance(s_.value, ast.Lambda):
+                            # the statement defines a lambda itself: reduce the helper calls inside its body
+                            a_nf = ('assign', nf_[1], N_.n(s_.value))
+                        else:
+                            a_nf = ('assign', nf_[1], N_.n(s_.value))
+                    elif isinstance(s_, ast.Return):
+                        a_nf = ('return', N_.n(s_.value) if s_.value is not None else None)
+                    else:
+                        a_nf = ('expr', N_.n(s_.value))
+                    if a_nf != nf_ and '#phi' not in repr(a_nf) and a_nf not in alt.get(id(s_), []):
+                        alt.setdefault(id(s_), []).append(a_nf)
+                except AnalysisError:
+                    pass
         elif isinstance(s_, ast.If) and not s_.orelse and nf_[0] == 'if':
             # `if c: continue` + rest  and  `if not c: rest`  are one construct: an `if` item also matches
             # the opposite test (the run conditions of the dependent statements are decided by CONTEXT)
-            alt[id(s_)] = ('if', sym.negate(nf_[1]))
+            alt[id(s_)] = [('if', sym.negate(nf_[1]))]
     best = {'n': -1, 'binding': {}, 'matched': {}}
     via_alt = {}
 
@@ -562,7 +569,7 @@ def inventory(fn, rule, items, metas, root=None, fixed=None, required=True, orde
             if any(s is m for m in matched.values()):
                 continue
             done = False
-            for cand in ([nf] + ([alt[id(s)]] if id(s) in alt else [])):
+            for cand in ([nf] + alt.get(id(s), [])):
                 for b in sym._unify(pat, cand, binding, metas):
                     matched[inst] = s
                     via_alt[inst] = cand is not nf
